@@ -40,6 +40,9 @@ func vfCheckCase(r *rep.R, c vfCase) {
 		}
 		return m
 	}
+	if run.slow {
+		r.Add("finished_only_in_grace_period", 1)
+	}
 	if !run.finished {
 		r.Violation("no-termination", detail(map[string]any{"watchdog_s": vfWatchdog.Seconds(), "well_formed_sizes": wf}))
 		return
